@@ -3,6 +3,8 @@ chart through Chart.from_file, fetch the track and compare aspects of its note e
 model (cpverif.model.expected_notes)."""
 from __future__ import annotations
 
+import zlib
+
 from cpverif import spec as S
 from cpverif.lib import L
 
@@ -74,12 +76,32 @@ def _decoys(header: str, lines: list[str], mode: int) -> dict[str, list[str]]:
     return out
 
 
+# global events every chart editor and game knows ("end" is where Clone Hero stops a song, "section ..."
+# opens a practice section, ...): what stands in [Events] never changes what a track contains
+_EVENT_WORDS = ["end", "music_start", "section Chorus 1", "lyric la", "phrase_start", "end", "music_end", "coda",
+                "phrase_end", "idle", "section end", "solo", "soloend", "half_tempo", "End", "section Verse 2a",
+                "lighting (chase)", "crowd_noclap", "play", "lyric end"]
+
+
+def _global_events(lines: list[str]) -> list[list]:
+    """Two out of three sections get 1..3 global events at ticks of their own lines (first third, middle,
+    just behind the first line): a deterministic function of the section's text."""
+    ticks = sorted({int(l.split(" ", 1)[0]) for l in lines if l[:1].isdigit()})
+    k = zlib.crc32("\n".join(lines[:40]).encode())
+    if not ticks or k % 3 == 0:
+        return []
+    at = [ticks[len(ticks) // 3], ticks[len(ticks) // 2], ticks[0] + 1][: 1 + (k >> 4) % 3]
+    evs = [[t, _EVENT_WORDS[((k >> 8) + 7 * j) % len(_EVENT_WORDS)]] for j, t in enumerate(at)]
+    return sorted(evs, key=lambda e: e[0])
+
+
 def parse_track(ctx, res: int, tempo, lines: list[str], header: str, rc, fmt: int = 0, decoy: int | None = None):
     """Returns (chart, track) or (None, None) after reporting a violation."""
     if decoy is None:
         decoy = (fmt >> 2) % 4 if fmt else (len(lines) % 5 if len(lines) % 5 < 4 else 0) if len(lines) % 2 else 0
     strays = lines[:: max(1, len(lines) // 3)][:3] if (not fmt and len(lines) % 3 == 0) else ()
-    text = chart_text(res, tempo, _decoys(header, lines, decoy), fmt=fmt, strays=strays)
+    text = chart_text(res, tempo, _decoys(header, lines, decoy), events=_global_events(lines), fmt=fmt,
+                      strays=strays)
     try:
         chart = L.parse(text)
     except Exception as e:  # noqa: BLE001
